@@ -380,6 +380,8 @@ class Ctx:
 
     def judge(self, module, trace_path, **kw):
         verdicts, n, r = judge(self.work.sub("judge-" + module), module, trace_path, **kw)
+        self.last_drift = len(r.tagged("DRIFT"))
+        self.last_judge = r
         self.events_judged += n
         self.tlc_cmds.append(r.cmd)
         log("[%s] judge %s: %d events, %d verdicts, %.1fs" % (self.pid, module, n, len(verdicts), r.wall))
